@@ -128,6 +128,8 @@ def gen_valid(rng, cls):
         spec["opts"] = {"optimize_with_greedy": False}
     if cls in HAS_K:
         spec["k"] = len(routes) + rng.choice([0, 0, 1])
+        if cls in K_NONE_ALLOWED and rng.random() < 0.15:
+            spec["k"] = None                      # documented: "use the width"
     # constraints from actual routes
     if cls in HAS_CONS and rng.random() < 0.5:
         r = rng.choice(routes)
@@ -444,7 +446,7 @@ def v_kbool_sup(spec, rng): spec["k"] = rng.random() < 0.7; return _sup(spec, rn
 def v_k0_greedy_off(spec, rng):
     if spec["cls"] != "kFlowDecomp": return False
     spec["k"] = rng.choice([0, -1]); spec["opts"] = {"optimize_with_greedy": False}; return True
-# kinds of k outside the abstract model (evaluated against the property only): None where it is not documented, a string
+# None where it is not documented, a string
 def v_knone(spec, rng):
     if spec["cls"] in K_NONE_ALLOWED: return False
     spec["k"] = None; spec["k_is_none"] = True
